@@ -225,6 +225,59 @@ func vfC06Run(t *testing.T, res *vfResult, c vfC06Case) {
 	synctest.Wait()
 }
 
+// vfC06LastWords: the peer writes a payload and closes at once; the application on this side is not sitting in Read
+// at that moment and calls it a little later. The record arrived and was accepted before the close_notify: it is
+// delivered (exactly once), and only then does Read report the end of the session.
+func vfC06LastWords(t *testing.T, res *vfResult, idx int) {
+	vs := vfC06Cfgs()
+	v := vs[idx%len(vs)]
+	res.Eval(1)
+	co, so := v.Cfg.Options(nil, nil)
+	p, err := vfNewPair(vfNewNet(), co, so)
+	if err != nil {
+		res.Count("config_rejected", 1)
+
+		return
+	}
+	if ce, se := p.Handshake(time.Minute); ce != nil || se != nil {
+		res.Count("handshake_failed", 1)
+		p.Close()
+		synctest.Wait()
+
+		return
+	}
+	time.Sleep(3 * time.Second) // DTLS 1.3 post-handshake flights settle
+	synctest.Wait()
+	from, to := p.C, p.S
+	if (idx/len(vs))%2 == 1 {
+		from, to = p.S, p.C
+	}
+	pl := []byte(fmt.Sprintf("last-words-%d", idx))
+	_, werr := from.Conn.Write(pl)
+	_ = from.Conn.Close()
+	time.Sleep(100 * time.Millisecond)
+	synctest.Wait()
+	id := fmt.Sprintf("last-words/%s/%s", v.Name, to.Name)
+	res.NonTrivial(fmt.Sprintf("%s/%d", id, idx))
+	buf := make([]byte, 256)
+	_ = to.Conn.SetReadDeadline(time.Now().Add(5 * time.Second))
+	n1, err1 := to.Conn.Read(buf)
+	got := append([]byte(nil), buf[:n1]...)
+	res.Count("last_words_cases", 1)
+	if werr == nil && (err1 != nil || !bytes.Equal(got, pl)) {
+		res.Violate("C06:accepted-record-not-delivered:followed-by-close-notify:"+vfVerClass(v),
+			fmt.Sprintf("%s: the peer wrote %q and closed; the first Read afterwards returned (%q, %v) instead of the payload", id, pl, got, err1), map[string]any{"last_words": idx})
+	} else if werr == nil {
+		n2, err2 := to.Conn.Read(buf)
+		if err2 == nil {
+			res.Violate("C06:delivered-twice:last-words:"+vfVerClass(v), fmt.Sprintf("%s: a second Read returned %q", id, buf[:n2]), map[string]any{"last_words": idx})
+		}
+		res.Count("last_words_delivered_before_eof", 1)
+	}
+	p.Close()
+	synctest.Wait()
+}
+
 func TestVF_C06(t *testing.T) {
 	vfGetPKI()
 	res := vfNewResult("C06", "arrival scripts over captured application records: exhaustive for all scripts of length <= n+2 over n <= 3 (quick) / 4 "+
@@ -373,6 +426,7 @@ func TestVF_C06(t *testing.T) {
 	}
 	vfCaseName = func(i int) string { return cases[i].ID() }
 	vfBubbles(t, len(cases), func(t *testing.T, i int) { vfC06Run(t, res, cases[i]) })
+	vfBubbles(t, vfPick(6, 40)*len(vfC06Cfgs()), func(t *testing.T, i int) { vfC06LastWords(t, res, i) })
 	vfCaseName = nil
 	res.Floor("duplicate_arrivals_rejected", 100)
 	res.Floor("reordered_accepted", 100)
